@@ -146,3 +146,58 @@ def const_number(prog: Program, module: Module, name: str) -> Optional[float]:
         return float(ast.literal_eval(v))
     except (ValueError, SyntaxError, TypeError):
         return None
+
+
+# --------------------------------------------------------------------------------------
+# PreferredUnits: a slot is an *unknown* unit of the slot's dimension
+# --------------------------------------------------------------------------------------
+
+def pref_slots(prog: Program) -> Dict[str, str]:
+    """slot name -> Unit member name of the class-level default."""
+    pu = prog.cls(M_UNIT, 'PreferredUnits')
+    mem = unit_members(prog)
+    out = {}
+    for name in pu.attr_order:
+        ann, val = pu.attrs[name]
+        d = dotted(val) if val is not None else None
+        if ann is not None and d and d.startswith('Unit.') and d[5:] in mem:
+            out[name] = d[5:]
+    if len(out) < 5:
+        raise AnalysisError('PreferredUnits slots cannot be read')
+    return out
+
+
+def pref_hooks(prog: Program) -> Dict[str, object]:
+    """Evaluator hooks: ``PreferredUnits.<slot>`` is an opaque unit.  Applying it to a quantity runs
+    the analysed ``Unit.__call__`` (which only rewrites the display unit); applying it to a bare
+    number yields a quantity of the slot's dimension whose magnitude is an uninterpreted function of
+    the number (it depends on the setting in force)."""
+    from ..abseval import Cond, Raised, SymObj, Undecided
+    slots = pref_slots(prog)
+    ucls = unit_class(prog)
+    call = prog.func(M_UNIT, 'Unit.__call__')
+
+    def classattr(ev, owner, attr):
+        return SymObj(f'PreferredUnits.{attr}', ucls)
+
+    def symcall(ev, fv, args, kwargs, st):
+        if not fv.path.startswith('PreferredUnits.') or fv.path.count('.') != 1:
+            return None
+        slot = fv.path.split('.')[1]
+        if slot not in slots or len(args) != 1:
+            return None
+
+        def one(x):
+            if isinstance(x, Inst):
+                return ev.call_func(call, [x], {}, st, Ctx(call.module, None, None, 1), self_val=fv)
+            if isinstance(x, Scalar):
+                dim = dimension_of_unit(prog, slots[slot])
+                ci = prog.cls(M_UNIT, dim)
+                return ev.new_inst(st, ci, {'_value': Scalar(A.fn(f'pref_to_raw[{slot}]', x.rf)), '_defined_units': fv})
+            raise Undecided(f'PreferredUnits.{slot} applied to {x!r}')
+        return ev.lift(one, args[0])
+
+    hooks: Dict[str, object] = {'symcall': symcall}
+    for slot in slots:
+        hooks[f'classattr:PreferredUnits.{slot}'] = classattr
+    return hooks
